@@ -358,6 +358,14 @@ def _defaults_at_definition(v: Callable, lm: ast.Lambda) -> bool:
     was written with) and that name no longer stands for it."""
 
     def at_definition(value: Any, written: ast.expr) -> ast.expr:
+        # A default written as a literal that is still what python kept stays as written (the
+        # query is then the one the same text gives: `k=-1`, `edges=(1, 2)`).
+        try:
+            as_written = ast.literal_eval(written)
+            if type(as_written) is type(value) and repr(as_written) == repr(value):
+                return written
+        except Exception:
+            pass
         if type(value) in _literal_types:
             return as_literal(value)
         # Any other value python kept for the default (None, a tuple, a list ...)
